@@ -1,6 +1,8 @@
 package main
 
 import (
+	"crypto/sha256"
+	"encoding/hex"
 	"flag"
 	"fmt"
 	"go/ast"
@@ -29,6 +31,13 @@ import (
 //	rand      any use of an identifier of package math/rand or crypto/rand
 //	go        a go statement
 //	select    a select statement
+//	sort      sort.Slice/Sort/Stable/SliceStable/Strings/Ints/… and slices.Sort*: the result depends on the order of
+//	          the input unless the key is total (an unstable sort of tied elements is algorithm dependent)
+//	ctxpoll   X.Err() / X.Deadline() with X a context.Context (ctxpoll? when the type of X is unknown): the answer
+//	          depends on the wall clock although no select and no time.Now is written
+//	env       os.Getenv/LookupEnv/Environ/Hostname/Getpid/Getwd, runtime.NumCPU/GOMAXPROCS/NumGoroutine: node-local inputs
+//	mapkeys   X.MapRange() / X.MapKeys() (package reflect), maps.Keys / maps.Values: map order without a range statement
+//	ptrfmt    a format string containing %p handed to a …f function: an address in a string
 //
 // as a key `file:func:kind:text[#n]` (no line numbers: unrelated edits do not move keys; `#n` is
 // appended to the n-th repetition, n ≥ 1, of a key inside one function).  A `range` whose operand
@@ -40,6 +49,16 @@ import (
 // promoted), package-level variables, function/method results, local variables introduced by `:=`,
 // `var`, parameters, results, receivers and range clauses.  Anything the index cannot resolve is
 // reported as `range?`, so a miss of the resolver shows up as an extra site, never as a missing one.
+//
+// For every map iteration (maprange, range?, syncmap) it also emits a row of `loops`: what the loop BODY does, so
+// that the classification of the site is tied to the body and not only to the operand:
+//
+//	exits   how the body can leave the loop early (break, return, goto, labelled break/continue to an outer
+//	        loop): with an early exit the SET of visited entries depends on the iteration order
+//	writes  the assignment targets of the body that are not plain loop-local variables (index expressions
+//	        abstracted: `m[_]`), `delete(m, _)`, channel sends, ++/--
+//	calls   the functions and methods the body calls (logger chains left out), sorted
+//	hash    fingerprint of the printed body (comments and layout do not count)
 //
 // The Lean side (`Aergo.Model.Nondet.table`) maps every key to the theorem that covers it or to the
 // reason why it cannot feed consensus state; `Props.C02.all_sites_covered` fails on an unmapped key.
@@ -352,9 +371,17 @@ type ndScan struct {
 	out  *[]string
 	seen map[string]int
 	pref string
+	// loops receives one row per map iteration site (nil: not collected, e.g. in a type-resolution sub-scan)
+	loops *[]ndLoop
 }
 
-func (s *ndScan) add(kind string, n ast.Node) {
+// ndLoop describes the body of one map iteration.
+type ndLoop struct {
+	key, exits, hash string
+	writes, calls    []string
+}
+
+func (s *ndScan) add(kind string, n ast.Node) string {
 	var sb strings.Builder
 	printer.Fprint(&sb, s.w.fset, n)
 	txt := strings.Join(strings.Fields(sb.String()), " ")
@@ -368,6 +395,239 @@ func (s *ndScan) add(kind string, n ast.Node) {
 		key = fmt.Sprintf("%s#%d", key, k)
 	}
 	*s.out = append(*s.out, key)
+	return key
+}
+
+func (s *ndScan) text(n ast.Node) string {
+	var sb strings.Builder
+	printer.Fprint(&sb, s.w.fset, n)
+	return strings.Join(strings.Fields(sb.String()), " ")
+}
+
+// isLogger: e is (a call chain rooted at) a package-level logger variable (`var logger = log.NewLogger(..)`).
+func (s *ndScan) isLogger(e ast.Expr) bool {
+	for depth := 0; depth < 30; depth++ {
+		switch v := e.(type) {
+		case *ast.CallExpr:
+			e = v.Fun
+		case *ast.SelectorExpr:
+			e = v.X
+		case *ast.ParenExpr:
+			e = v.X
+		case *ast.Ident:
+			if _, local := s.env[v.Name]; local {
+				return false
+			}
+			if in, ok := s.p.varInit[v.Name]; ok {
+				return strings.Contains(s.text(in.e), "NewLogger(")
+			}
+			if t, ok := s.p.vars[v.Name]; ok {
+				return strings.Contains(s.text(t.e), "log.Logger")
+			}
+			return false
+		default:
+			return false
+		}
+	}
+	return false
+}
+
+// lhsText prints an assignment target with the index expressions abstracted.
+func (s *ndScan) lhsText(e ast.Expr) string {
+	switch v := e.(type) {
+	case *ast.IndexExpr:
+		return s.lhsText(v.X) + "[_]"
+	case *ast.SelectorExpr:
+		return s.lhsText(v.X) + "." + v.Sel.Name
+	case *ast.StarExpr:
+		return "*" + s.lhsText(v.X)
+	case *ast.ParenExpr:
+		return s.lhsText(v.X)
+	case *ast.Ident:
+		return v.Name
+	}
+	return s.text(e)
+}
+
+// loop summarises the body of a map iteration: see the comment at the top of the file.
+func (s *ndScan) loop(key string, body ast.Node, isFuncLit bool) {
+	if s.loops == nil || body == nil {
+		return
+	}
+	local := map[string]bool{} // names declared inside the body: plain assignments to them are not effects
+	ast.Inspect(body, func(n ast.Node) bool {
+		switch v := n.(type) {
+		case *ast.AssignStmt:
+			if v.Tok == token.DEFINE {
+				for _, l := range v.Lhs {
+					if id, ok := l.(*ast.Ident); ok {
+						local[id.Name] = true
+					}
+				}
+			}
+		case *ast.ValueSpec:
+			for _, n := range v.Names {
+				local[n.Name] = true
+			}
+		case *ast.RangeStmt:
+			if v.Tok == token.DEFINE {
+				for _, e := range []ast.Expr{v.Key, v.Value} {
+					if id, ok := e.(*ast.Ident); ok {
+						local[id.Name] = true
+					}
+				}
+			}
+		case *ast.FuncLit:
+			for _, fl := range []*ast.FieldList{v.Type.Params, v.Type.Results} {
+				if fl != nil {
+					for _, f := range fl.List {
+						for _, n := range f.Names {
+							local[n.Name] = true
+						}
+					}
+				}
+			}
+		}
+		return true
+	})
+	writes, calls, exits := map[string]bool{}, map[string]bool{}, map[string]bool{}
+	target := func(e ast.Expr) {
+		if id, ok := e.(*ast.Ident); ok && (local[id.Name] || id.Name == "_") {
+			return
+		}
+		writes[s.lhsText(e)] = true
+	}
+	// depth of enclosing breakable statements inside the body (an unlabelled break there does not leave the loop);
+	// inside a nested function literal nothing leaves the loop (a `.Range` callback leaves it by `return false`:
+	// recorded as the values it returns)
+	var walk func(n ast.Node, brk int, fn int)
+	walk = func(n ast.Node, brk int, fn int) {
+		if n == nil {
+			return
+		}
+		switch v := n.(type) {
+		case *ast.FuncLit:
+			walk(v.Body, 0, fn+1)
+			return
+		case *ast.ForStmt:
+			walk(v.Init, brk, fn)
+			walk(v.Cond, brk, fn)
+			walk(v.Post, brk, fn)
+			walk(v.Body, brk+1, fn)
+			return
+		case *ast.RangeStmt:
+			walk(v.X, brk, fn)
+			walk(v.Body, brk+1, fn)
+			return
+		case *ast.SwitchStmt:
+			walk(v.Init, brk, fn)
+			walk(v.Tag, brk, fn)
+			walk(v.Body, brk+1, fn)
+			return
+		case *ast.TypeSwitchStmt:
+			walk(v.Init, brk, fn)
+			walk(v.Assign, brk, fn)
+			walk(v.Body, brk+1, fn)
+			return
+		case *ast.SelectStmt:
+			walk(v.Body, brk+1, fn)
+			return
+		case *ast.BranchStmt:
+			switch {
+			case fn > 0:
+			case v.Tok == token.BREAK && v.Label == nil && brk == 0:
+				exits["break"] = true
+			case v.Tok == token.BREAK && v.Label != nil, v.Tok == token.CONTINUE && v.Label != nil, v.Tok == token.GOTO:
+				exits[v.Tok.String()+" "+v.Label.Name] = true
+			}
+			return
+		case *ast.ReturnStmt:
+			if fn == 0 && !isFuncLit {
+				exits["return"] = true
+			} else if fn == 0 && isFuncLit { // the callback of X.Range(f): `return false` stops the iteration
+				for _, r := range v.Results {
+					if t := s.text(r); t != "true" {
+						exits["return "+t] = true
+					}
+				}
+			}
+		case *ast.AssignStmt:
+			if v.Tok != token.DEFINE {
+				for _, l := range v.Lhs {
+					target(l)
+				}
+			} else {
+				for _, l := range v.Lhs {
+					if _, ok := l.(*ast.Ident); !ok {
+						target(l)
+					}
+				}
+			}
+		case *ast.IncDecStmt:
+			target(v.X)
+		case *ast.SendStmt:
+			writes[s.lhsText(v.Chan)+"<-"] = true
+		case *ast.GoStmt:
+			calls["go"] = true
+		case *ast.DeferStmt:
+			calls["defer"] = true
+		case *ast.CallExpr:
+			if !s.isLogger(v.Fun) {
+				switch f := v.Fun.(type) {
+				case *ast.Ident:
+					if f.Name == "delete" && len(v.Args) > 0 {
+						writes["delete("+s.lhsText(v.Args[0])+")"] = true
+					} else if f.Name == "panic" && fn == 0 {
+						exits["panic"] = true
+					} else {
+						calls[f.Name] = true
+					}
+				case *ast.SelectorExpr:
+					name := "." + f.Sel.Name
+					if id, ok := f.X.(*ast.Ident); ok {
+						if _, isLocal := s.env[id.Name]; !isLocal && !local[id.Name] {
+							if _, isImport := s.p.imports[s.f][id.Name]; isImport {
+								name = id.Name + "." + f.Sel.Name
+							}
+						}
+					}
+					calls[name] = true
+				case *ast.FuncLit:
+					calls["func"] = true
+				default:
+					calls["("+s.text(v.Fun)+")"] = true
+				}
+			}
+		}
+		// generic descent
+		ast.Inspect(n, func(c ast.Node) bool {
+			if c == n {
+				return true
+			}
+			if c != nil {
+				walk(c, brk, fn)
+			}
+			return false
+		})
+	}
+	if bs, ok := body.(*ast.BlockStmt); ok {
+		for _, st := range bs.List {
+			walk(st, 0, 0)
+		}
+	} else {
+		walk(body, 0, 0)
+	}
+	keys := func(m map[string]bool) []string {
+		out := make([]string, 0, len(m))
+		for k := range m {
+			out = append(out, k)
+		}
+		sort.Strings(out)
+		return out
+	}
+	sum := sha256.Sum256([]byte(s.text(body)))
+	*s.loops = append(*s.loops, ndLoop{key: key, exits: strings.Join(keys(exits), ","), writes: keys(writes), calls: keys(calls),
+		hash: hex.EncodeToString(sum[:6])})
 }
 
 // typeOf: the static type of expression e, or a zero ndRef when unknown.
@@ -653,15 +913,27 @@ func (s *ndScan) multi(rhs ast.Expr, i int) ndRef {
 
 func (s *ndScan) scan(body ast.Node) {
 	randNames := map[string]bool{}
-	timeName := ""
+	timeName, sortName, slicesName, osName, runtimeName, mapsName := "", "", "", "", "", ""
 	for name, path := range s.p.imports[s.f] {
 		switch path {
 		case "math/rand", "crypto/rand", "math/rand/v2":
 			randNames[name] = true
 		case "time":
 			timeName = name
+		case "sort":
+			sortName = name
+		case "slices", "golang.org/x/exp/slices":
+			slicesName = name
+		case "os":
+			osName = name
+		case "runtime":
+			runtimeName = name
+		case "maps", "golang.org/x/exp/maps":
+			mapsName = name
 		}
 	}
+	envFuncs := map[string]bool{"Getenv": true, "LookupEnv": true, "Environ": true, "Hostname": true, "Getpid": true, "Getwd": true,
+		"NumCPU": true, "GOMAXPROCS": true, "NumGoroutine": true}
 	ast.Inspect(body, func(n ast.Node) bool {
 		switch v := n.(type) {
 		case *ast.FuncLit:
@@ -703,9 +975,9 @@ func (s *ndScan) scan(body ast.Node) {
 			t := s.typeOf(v.X, 0)
 			switch s.class(t) {
 			case "map":
-				s.add("maprange", v.X)
+				s.loop(s.add("maprange", v.X), v.Body, false)
 			case "":
-				s.add("range?", v.X)
+				s.loop(s.add("range?", v.X), v.Body, false)
 			default:
 				if os.Getenv("GOEXT_NONDET_DEBUG") != "" {
 					var sb strings.Builder
@@ -765,6 +1037,18 @@ func (s *ndScan) scan(body ast.Node) {
 					if id.Name == timeName && (v.Sel.Name == "Now" || v.Sel.Name == "Since" || v.Sel.Name == "Until") {
 						s.add("time", v)
 					}
+					if (id.Name == sortName && sortName != "" && v.Sel.Name != "Reverse" && v.Sel.Name != "Search" && !strings.HasPrefix(v.Sel.Name, "Search") &&
+						!strings.HasSuffix(v.Sel.Name, "AreSorted") && !strings.HasSuffix(v.Sel.Name, "IsSorted") && v.Sel.Name != "Interface" &&
+						v.Sel.Name != "StringSlice" && v.Sel.Name != "IntSlice" && v.Sel.Name != "Float64Slice") ||
+						(id.Name == slicesName && slicesName != "" && strings.HasPrefix(v.Sel.Name, "Sort")) {
+						s.add("sort", v)
+					}
+					if (id.Name == osName && osName != "" || id.Name == runtimeName && runtimeName != "") && envFuncs[v.Sel.Name] {
+						s.add("env", v)
+					}
+					if id.Name == mapsName && mapsName != "" && (v.Sel.Name == "Keys" || v.Sel.Name == "Values") {
+						s.add("mapkeys", v)
+					}
 				}
 			}
 		}
@@ -777,6 +1061,7 @@ func cmdNondet(args []string) error {
 	out := fs.String("o", "", "output .lean file")
 	repo := fs.String("repo", "/repo", "repository root")
 	ns := fs.String("ns", "Aergo.Gen.NondetSites", "Lean namespace")
+	roots := fs.String("roots", "", "comma separated package directories: emit `closure`, the packages of this module they transitively import")
 	if err := fs.Parse(args); err != nil {
 		return err
 	}
@@ -796,6 +1081,7 @@ func cmdNondet(args []string) error {
 	}
 	w := &ndWorld{repo: *repo, module: mod, fset: token.NewFileSet(), pkgs: map[string]*ndPkg{}}
 	var scanned, sites []string
+	var loops []ndLoop
 	for _, spec := range fs.Args() {
 		spec = strings.TrimSuffix(spec, "/*.go")
 		dir, only := spec, ""
@@ -820,7 +1106,7 @@ func cmdNondet(args []string) error {
 					if fd.Body == nil {
 						continue
 					}
-					sc := &ndScan{w: w, p: p, f: af, env: map[string]ndRef{}, out: &sites, seen: map[string]int{}, pref: file + ":" + funcName(fd)}
+					sc := &ndScan{w: w, p: p, f: af, env: map[string]ndRef{}, out: &sites, seen: map[string]int{}, pref: file + ":" + funcName(fd), loops: &loops}
 					if fd.Recv != nil {
 						for _, f := range fd.Recv.List {
 							for _, n := range f.Names {
@@ -838,7 +1124,7 @@ func cmdNondet(args []string) error {
 								if i < len(vs.Names) {
 									nm = vs.Names[i].Name
 								}
-								sc := &ndScan{w: w, p: p, f: af, env: map[string]ndRef{}, out: &sites, seen: map[string]int{}, pref: file + ":var " + nm}
+								sc := &ndScan{w: w, p: p, f: af, env: map[string]ndRef{}, out: &sites, seen: map[string]int{}, pref: file + ":var " + nm, loops: &loops}
 								sc.scan(val)
 							}
 						}
@@ -850,6 +1136,43 @@ func cmdNondet(args []string) error {
 			return fmt.Errorf("%s: file not found (renamed or removed: the inventory no longer covers it)", spec)
 		}
 	}
+	// the module-local transitive import closure of the root packages (non-test files, all build tags): a package that
+	// block execution starts to import shows up here and must be added to the scan list (Props.C02.closure_scanned)
+	var closure []string
+	if *roots != "" {
+		seen := map[string]bool{}
+		todo := strings.Split(*roots, ",")
+		for len(todo) > 0 {
+			d := todo[len(todo)-1]
+			todo = todo[:len(todo)-1]
+			if seen[d] {
+				continue
+			}
+			seen[d] = true
+			p := w.load(d)
+			if p == nil {
+				return fmt.Errorf("%s: root/imported package has no Go files", d)
+			}
+			for _, imps := range p.imports {
+				for _, path := range imps {
+					if strings.HasPrefix(path, mod+"/") {
+						todo = append(todo, strings.TrimPrefix(path, mod+"/"))
+					}
+				}
+			}
+		}
+		for d := range seen {
+			closure = append(closure, d)
+		}
+		sort.Strings(closure)
+	}
+	var scannedDirs []string
+	for _, spec := range fs.Args() {
+		if !strings.HasSuffix(spec, ".go") || strings.HasSuffix(spec, "/*.go") {
+			scannedDirs = append(scannedDirs, strings.TrimSuffix(spec, "/*.go"))
+		}
+	}
+	sort.Strings(scannedDirs)
 	sort.Strings(scanned)
 	sort.Strings(sites) // canonical order: independent of the order of declarations in the source
 	var b strings.Builder
@@ -861,10 +1184,36 @@ func cmdNondet(args []string) error {
 		fmt.Fprintf(&b, "  %s%s\n", leanStr(s), comma(i, len(scanned)))
 	}
 	b.WriteString("]\n\n")
+	b.WriteString("/-- package directories scanned completely -/\n")
+	b.WriteString("def scannedDirs : List String := [" )
+	for i, s := range scannedDirs {
+		fmt.Fprintf(&b, "%s%s", leanStr(s), comma(i, len(scannedDirs)))
+	}
+	b.WriteString("]\n\n")
+	b.WriteString("/-- the packages of this module that the root packages (-roots) transitively import, roots included -/\n")
+	b.WriteString("def closure : List String := [" )
+	for i, s := range closure {
+		fmt.Fprintf(&b, "%s%s", leanStr(s), comma(i, len(closure)))
+	}
+	b.WriteString("]\n\n")
 	b.WriteString("/-- every `range` over a map (or over an expression whose type the extractor cannot resolve), `.Range(f)` call,\n`time.Now/Since/Until`, use of package `rand`, `go` statement and `select` statement of the scanned files:\n`file:func:kind:text[#n]`, in ascending (byte) order -/\n")
 	b.WriteString("def sites : List String := [\n")
 	for i, s := range sites {
 		fmt.Fprintf(&b, "  %s%s\n", leanStr(s), comma(i, len(sites)))
+	}
+	b.WriteString("]\n\n")
+	sort.Slice(loops, func(i, j int) bool { return loops[i].key < loops[j].key })
+	b.WriteString("/-- one row per map iteration (kinds maprange, range?, syncmap) of `sites`, same order: the key, how the body can\nleave the loop early, the non-local targets it writes, the functions it calls (logger chains left out), and a\nfingerprint of the printed body -/\n")
+	b.WriteString("def loops : List (String × String × List String × List String × String) := [\n")
+	strs := func(l []string) string {
+		q := make([]string, len(l))
+		for i, x := range l {
+			q[i] = leanStr(x)
+		}
+		return "[" + strings.Join(q, ", ") + "]"
+	}
+	for i, l := range loops {
+		fmt.Fprintf(&b, "  (%s,\n    %s, %s,\n    %s, %s)%s\n", leanStr(l.key), leanStr(l.exits), strs(l.writes), strs(l.calls), leanStr(l.hash), comma(i, len(loops)))
 	}
 	b.WriteString("]\n\n")
 	fmt.Fprintf(&b, "end %s\n", *ns)
